@@ -115,7 +115,7 @@ CHECKS["C01"] = {
     "units": [
         {"pkg": _SS, "run": "^TestVerif_C01_", Q: {"timeout": 600}, T: {"timeout": 3400, "shards": 12}},
     ],
-    "mandatory_labels": {"all": ["kind/account", "kind/contact", "kind/multimember", "payload>=4KiB", "payload-empty", "mutants-decrypting-to-signature-check", "concurrent-seal/overlapping", "write-fault/fired"]},
+    "mandatory_labels": {"all": ["kind/account", "kind/contact", "kind/multimember", "payload>=4KiB", "payload-empty", "mutants-decrypting-to-signature-check", "concurrent-seal/overlapping", "write-fault/fired", "read-fault/fired"]},
 }
 
 CHECKS["C02"] = {
@@ -439,7 +439,7 @@ for _k, _v in _ADDED5.items():
     if _v:
         CHECKS[_k]["level_text"] += " " + _v
 _ADDED6 = {
-    "C01": "Single transient datastore write failures during opens (an honest message refused because of one is a violation once the write works again).",
+    "C01": "Single transient datastore write or read failures during opens (an honest message refused for good because of one is a violation).",
     "C03": "Forged entries also arrive by replication from a branch concurrent with the victim's history (a replica that merged nothing, Lamport time 1).",
     "C04": "Controlled schedules (DFS + rapid) of overlapping index passes of the writer's task and the replication task over a log that grows meanwhile (instrumented index; the final state must be the state of the entries held).",
     "C05": "Single transient datastore write failures during the first announcement (an announced key must be usable).",
